@@ -8,6 +8,10 @@
        [finally] DbClose -> MetaWrite -> LogClose ->
      PostHook -> Unlock -> Exit
 
+   Lock may have to wait for a lock file that another run holds; a run that is
+   interrupted during that wait (case point "LockWait") leaves entry_point()
+   right there: nothing has been created, nothing is to be cleaned up.
+
    The only nondeterminism is the environment's choice of the case (kind x
    resources x injected failure) in Init.  TLC checks that the final state of
    every case satisfies the contract (RunLifecycleContract) when all Dev_*
